@@ -11,9 +11,10 @@ from .c06h import registry_clause, is_registry_replay
 @pipeline
 def c06(ctx: Ctx):
     ctx.assumptions = [
-        "TLC; spec/BodyCheck.tla + spec/MediaSelect.tla as the contract (SelectLaws checked by TLC); SchemaSem 'asreq' reading",
+        "TLC; spec/BodyCheck.tla + spec/MediaSelect.tla as the contract (SelectLaws, WrapLaws, ExclusionLaws checked by TLC); SchemaSem 'asreq' reading",
         "harness realiser harness/c06.go: bodies encoded with encoding/json, url.Values and mime/multipart; each declared JSON-family entry accepts only bodies carrying its own marker property so the selected entry is observable through the verdict",
         "left open (excluded): absent Content-Type or a text body when */* is declared (declared, but the library has no decoder to apply)",
+        "left open (excluded): a text/plain body of digits against a schema of type integer (whether the text 42 is the integer 42); undeclared fields of form bodies",
     ]
     if is_registry_replay(ctx):
         return registry_clause(ctx)
@@ -21,7 +22,7 @@ def c06(ctx: Ctx):
     if ctx.replay:
         write_ndjson(cases, [ctx.replay["violation"]["c"]])
     else:
-        ctx.tlc("Gen_C06", "Gen_C06.cfg", label="D SelectLaws + F generate cases")
+        ctx.tlc("Gen_C06", "Gen_C06.cfg", label="D SelectLaws/WrapLaws + F generate cases")
         n = ctx.unquote(ctx.spec("cases.ndjson"), cases)
         log("[gen] %d cases" % n)
         ctx.exhaustive = True
@@ -37,7 +38,10 @@ def c06(ctx: Ctx):
             ctx.samples.append(dict(c=o["c"], verdict=o.get("verdict")))
     ctx.rule = ("complete product of spec/Gen_C06.tla: (declared sets of <=3 of {json, json;charset=utf-8, application/*, */*} x 5 Content-Type "
                 "headers x required x which entry's marker the body carries, + empty body x required) + (json/form/multipart x 2 schemas x 8 "
-                "bodies x ExcludeReadOnlyValidations x per-property encoding) + text/plain; every case distinct and judged")
+                "bodies x ExcludeReadOnlyValidations x per-property encoding) + text/plain bodies x 8 text schemas (6 without a type keyword) "
+                "+ multipart parts decoded as plain text (no part Content-Type / text/plain) x typed and untyped properties "
+                "+ (object schemas S1/S2/S7 (read-only and write-only properties) x 10 wraps (anyOf, oneOf, allOf, items, property, nested) "
+                "x 7 bodies x ExcludeReadOnlyValidations; form / multipart under allOf); every case distinct and judged")
     ctx.validate("Trace_C06", "Trace_C06.cfg", logp, chunk_lines=60)
     if not ctx.replay:
         registry_clause(ctx)
